@@ -1,7 +1,7 @@
 (* Complement, Range, NewSortedInts and Remove.
 
-   complement_spec     Complement(n, a): Panic exactly when len a > n (the capacity of make is
-                       negative), otherwise the strictly increasing list of {0..n-1} \ a
+   complement_spec     Complement(n, a), every n and every strictly increasing a (elements anywhere):
+                       never panics, returns the strictly increasing list of {0..n-1} \ a
    range_spec          Range(start, end, step): Panic exactly when [range_infinite], otherwise the
                        strictly increasing list of the start + k*step, k >= 0, inside [start, end)
                        (ascending) resp. (end, start] (descending)
@@ -58,14 +58,11 @@ Proof.
 Qed.
 
 Theorem complement_spec : forall n a, SInc a ->
-  (len a > n -> complement n a = Panic) /\
-  (len a <= n -> exists r, complement n a = Ret r /\ SInc r /\
-                           forall z, In z r <-> (0 <= z < n /\ ~ In z a)).
+  exists r, complement n a = Ret r /\ SInc r /\ forall z, In z r <-> (0 <= z < n /\ ~ In z a).
 Proof.
-  intros n a Ha. unfold complement, with_cap. split; intros H.
-  - destruct (Z.ltb_spec (n - len a) 0); [reflexivity|lia].
-  - destruct (Z.ltb_spec (n - len a) 0); [lia|].
-    apply compl_loop_spec; [exact Ha|]. unfold len in *. lia.
+  intros n a Ha. unfold complement. cbv zeta. rewrite with_cap_nonneg.
+  - apply compl_loop_spec; [exact Ha|]. lia.
+  - destruct (Z.ltb_spec (n - len a) 0); lia.
 Qed.
 
 (* ---------------------------------------------------------------- Range *)
